@@ -134,11 +134,14 @@ type mon = {
   mutable static_membership : bool;
   timed : bool;
   mutable viol : (string * string) list;             (* property, text *)
+  mutable tag : string;                              (* signature of a known finding seen earlier in this trace *)
 }
 
-let violate (m : mon) (prop : string) (text : string) =
+let rec violate (m : mon) (prop : string) (text : string) =
   if not (List.exists (fun (p, _) -> p = prop) m.viol) then
-    m.viol <- (prop, Printf.sprintf "%s step %d (%s): %s" m.tname m.step m.label text) :: m.viol
+    m.viol <- (prop, Printf.sprintf "%s step %d (%s): %s%s" m.tname m.step m.label m.tag text) :: m.viol;
+  (* C09: C01, C02 and C07 continue to hold under membership changes *)
+  if (prop = "C01" || prop = "C02" || prop = "C07") && not m.static_membership then violate m "C09" (prop ^ " under membership changes: " ^ text)
 
 let parse_log (s : string) : (int * string) list =
   (* "0:?:p,1:1:c1{0:1,1:1},2:1:n" -> [(1,"1:c1{..}"); (2,"1:n")] ; commas inside {} are not separators *)
@@ -172,6 +175,21 @@ let conf_voters c = List.filter_map (fun (k, v) -> if v then Some k else None) (
 
 let monitor_obs (m : mon) (o : obs) =
   let up = List.filter (fun (_, s) -> s <> "down" && s <> "frozen") o.nodes in
+  (* open finding D6: a node is elected while counting with a configuration older than the latest
+     configuration entry of its own log (followers adopt a configuration only when they apply it);
+     violations seen from here on in this trace carry this signature *)
+  List.iter (fun (id, s) ->
+      let t = int_field s "term" in
+      if field s "role" = "L" && m.tag = "" && not (Hashtbl.mem m.votes (Printf.sprintf "elected/%s/%d" id t)) then begin
+        let conf = field s "conf" in
+        let conf_index = try int_of_string (String.sub conf 0 (String.index conf '{')) with _ -> 0 in
+        let newest = List.fold_left (fun acc (i, e) ->
+            match String.index_opt e ':' with
+            | Some j when j + 1 < String.length e && e.[j + 1] = 'c' -> max acc i
+            | _ -> acc) 0 (parse_log (field s "log")) in
+        if newest > conf_index then
+          m.tag <- Printf.sprintf "[elected-under-stale-configuration node %s term %d uses %s, its log holds a configuration at index %d] " id t conf newest
+      end) up;
   (* C02: one leader per term *)
   let see_leader term id =
     match Hashtbl.find_opt m.leaders term with
@@ -579,6 +597,25 @@ let compare_obs (ts : tstate) (m : mon) (o : obs) =
   (* outcome *)
   List.iter (fun mn -> if mn.n_out <> Model.Ok then bad (Printf.sprintf "node %s" (ns mn.n_id)) "model predicts a fatal error or panic here") w.w_nodes
 
+(* ---- dumping the model-level labels of a trace as a Coq list (for refutation witnesses) ---- *)
+let dump_labels : Buffer.t option ref = ref None
+let rec nat_of_int k = if k <= 0 then O else S (nat_of_int (k - 1))
+let coq_label (l : label) : string =
+  let n = ns in
+  let b v = if v then "true" else "false" in
+  match l with
+  | LTick d -> "LTick " ^ n d | LElection x -> "LElection " ^ n x | LHeartbeat x -> "LHeartbeat " ^ n x
+  | LDeliver c -> "LDeliver " ^ n c | LDup c -> "LDup " ^ n c | LReply c -> "LReply " ^ n c | LFail c -> "LFail " ^ n c
+  | LSubmit (x, ty, p) -> Printf.sprintf "LSubmit %s %s %s" (n x)
+                            (match ty with OReplicated -> "OReplicated" | OLinearizable -> "OLinearizable" | _ -> "OLease") (n p)
+  | LAddServer (x, id, v) -> Printf.sprintf "LAddServer %s %s %s" (n x) (n id) (b v)
+  | LRemoveServer (x, id) -> Printf.sprintf "LRemoveServer %s %s" (n x) (n id)
+  | LSnapshot x -> "LSnapshot " ^ n x | LCrash x -> "LCrash " ^ n x | LRestart x -> "LRestart " ^ n x
+  | LBudget (x, k) -> Printf.sprintf "LBudget %s %s" (n x) (n k) | LPad (x, k) -> Printf.sprintf "LPad %s %s" (n x) (n k)
+  | LDefer x -> "LDefer " ^ n x | LTask x -> "LTask " ^ n x | LElectionRun x -> "LElectionRun " ^ n x
+  | LCommit x -> "LCommit " ^ n x | LApply x -> "LApply " ^ n x | LRo x -> "LRo " ^ n x
+  | LInstallResume x -> "LInstallResume " ^ n x
+
 let matches (ts : tstate) (m : mon) (o : obs) (w : world) : bool =
   let t' = { ts with w; cmap = Hashtbl.copy ts.cmap; diverged = false; quiet = true } in
   compare_obs t' m o;
@@ -633,7 +670,7 @@ let run_trace_file (path : string) =
                          step = 0; label = "INIT"; leaders = Hashtbl.create 8; applied = Hashtbl.create 32;
                          committed = Hashtbl.create 32; terms = Hashtbl.create 8; votes = Hashtbl.create 16;
                          lastlog = Hashtbl.create 8; submitted = Hashtbl.create 32; acked = Hashtbl.create 32; nfid = 0;
-                         voters = List.length boot; static_membership = true; timed = (List.assoc "family" k = "timed"); viol = [] }
+                         voters = List.length boot; static_membership = true; timed = (List.assoc "family" k = "timed"); viol = []; tag = "" }
        | "STEP" :: i :: rest ->
            flush_obs ();
            incr steps;
@@ -653,7 +690,13 @@ let run_trace_file (path : string) =
                  | _ -> ());
                 if label <> "INIT" && not t.diverged then
                   (match parse_label t.w t.cmap label with
-                   | Some l -> t.prev <- Some (t.w, l); t.w <- macro t.w l
+                   | Some l ->
+                       (match !dump_labels with
+                        | Some b ->
+                            let w1 = step t.w l in
+                            List.iter (fun x -> Buffer.add_string b (coq_label x ^ ";\n   ")) (l :: settle_labels (nat_of_int 200) w1)
+                        | None -> ());
+                       t.prev <- Some (t.w, l); t.w <- macro t.w l
                    | None ->
                        t.diverged <- true; incr mismatches;
                        say (Printf.sprintf "MISMATCH trace=%s step=%s label=%s what=label the model has no call with that id" m.tname i label))
@@ -673,6 +716,15 @@ let run_trace_file (path : string) =
        | _ -> ()
      done
    with End_of_file -> finish (); close_in ic)
+
+let run_dump_labels (file : string) =
+  let b = Buffer.create 4096 in
+  dump_labels := Some b;
+  run_trace_file file;
+  let body = Buffer.contents b in
+  let body = if String.length body >= 5 then String.sub body 0 (String.length body - 5) else body in
+  print_string ("[" ^ body ^ "]\n");
+  if !mismatches > 0 || !schedules_needed > 0 then (prerr_endline "the default schedule does not reproduce this trace"; exit 1)
 
 let run_traces (files : string list) =
   List.iter run_trace_file files;
